@@ -240,6 +240,8 @@ type NCase struct {
 	// encode side (Google v2 runtime-only flavours): the message object held the Prior value, was sized and
 	// marshaled through csproto, and was then changed in place to the value under test
 	Reused bool `json:"reused,omitempty"`
+	// decode side: the decoder is in fast mode
+	Fast bool `json:"fast,omitempty"`
 }
 
 // requiredUnset: the nested message is a proto2 message whose required fields are unset - its runtime refuses
@@ -367,6 +369,9 @@ func oracleC19(c *NCase) (f *ev.Failure) {
 		in = append(append(append(append([]byte{}, prefix...), hdr2...), M...), suffix...)
 	}
 	d := csproto.NewDecoder(in)
+	if c.Fast {
+		d.SetMode(csproto.DecoderModeFast)
+	}
 	for i, v := range c.Before {
 		num, wt, err := d.DecodeTag()
 		if err != nil || num != 100+i || wt != csproto.WireTypeVarint {
@@ -460,6 +465,7 @@ func genNCase(t *rapid.T) *NCase {
 	if !n.FailM && !n.FailU && rapid.IntRange(0, 5).Draw(t, "inflate") == 0 {
 		c.Inflate = rapid.SampledFrom([]uint64{1, 2, 127, 1 << 20, 1<<31 - 100, 1 << 31, 1 << 40, 1<<64 - 1 - (1 << 30)}).Draw(t, "infl")
 	}
+	c.Fast = rapid.Bool().Draw(t, "fastdecoder")
 	if n.Flavour != "gv2-nil" && rapid.IntRange(0, 2).Draw(t, "reuse") == 0 {
 		c.Prior = &NestedSpec{}
 		genNested(t, c.Prior, n.Flavour, false)
@@ -509,7 +515,7 @@ func genNested(t *rapid.T, n *NestedSpec, flavour string, mayFail bool) {
 	}
 }
 
-const ruleC19 = "case = nested message of one of the flavours {MarshalTo stub, Marshal-only stub, plain gogo (descriptor.DescriptorProto), plain pre-APIv2 Google v1 struct with XXX_ methods, plain Google v2 incl. well-known types and typed nil, proto2 message with required fields known only to Google v2 / gogo (unset => its runtime refuses to marshal it and to unmarshal the empty payload)} x value (incl. empty; nested sizes at the 1-, 2- and 3-byte length-prefix limits, deterministic sweep for the stubs) x decode target {fresh, already holding another value of the flavour} x encoded object {fresh, Google v2 message that held another value, was sized and marshaled, then changed in place} x 0..3 scalar fields before and after x field number up to 2^29-1 x failing nested marshaler/unmarshaler x declared length inflated beyond the buffer; " +
+const ruleC19 = "case = nested message of one of the flavours {MarshalTo stub, Marshal-only stub, plain gogo (descriptor.DescriptorProto), plain pre-APIv2 Google v1 struct with XXX_ methods, plain Google v2 incl. well-known types and typed nil, proto2 message with required fields known only to Google v2 / gogo (unset => its runtime refuses to marshal it and to unmarshal the empty payload)} x value (incl. empty; nested sizes at the 1-, 2- and 3-byte length-prefix limits, deterministic sweep for the stubs) x decoder mode {safe, fast} x decode target {fresh, already holding another value of the flavour} x encoded object {fresh, Google v2 message that held another value, was sized and marshaled, then changed in place} x 0..3 scalar fields before and after x field number up to 2^29-1 x failing nested marshaler/unmarshaler x declared length inflated beyond the buffer; " +
 	"oracle: exactly-sized sentinel-backed buffer == prefix|key|varint(len M)|M|suffix with M=csproto.Marshal(m); DecodeNested advances by exactly prefix+len, message equal, suffix decodes, nested errors propagate (errors.Is), inflated length is rejected with 0 calls of the nested decoder; " +
 	"non-trivial = non-empty nested message in a flavour other than MarshalTo, or a failing stub, or an inflated length; distinct by case content"
 
@@ -550,6 +556,9 @@ func TestC19(t *testing.T) {
 		}
 		if c.Prior != nil {
 			rec.Class("reused-decode-target")
+		}
+		if c.Fast {
+			rec.Class("decoder-in-fast-mode")
 		}
 		if c.Reused {
 			rec.Class("encoded-message-was-marshaled-before-and-changed-since")
